@@ -241,7 +241,8 @@ PROPS['C02'] = {
     'level': 'proof',
     'technique': 'Lean 4 theorems on a model of SignedObject::validate_at, the signed-attribute parser, SignedAttrs::encode_verify (proved equal to the DER SET OF encoding for every admissible size) and the ROA/ASPA coverage checks, composed with the C01 and C03 models (exact acceptance iff, every single fault rejects, coverage iff set inclusion) + differential check of the real code on objects assembled by an independent RFC 5652/6488 encoder',
     'claim': 'Lean 4 proofs: encode_verify(attrs) = 31 <DER length> attrs for every length below 65536 (false for the code before fix abf0291, which wrote 02 hi lo from 128 octets on); validate_at accepts iff the attributes are exactly one content-type (= eContentType), message-digest and signing-time, sid = EE SKI, digest attribute = digest of the content, signature by the EE key over the DER SET OF, and the EE certificate validates under the issuer (C01); Roa::process iff additionally the CRL verdict is ok and every address of every prefix is in the validated EE resources (hence in the issuer\'s); ASPA iff customer in the AS resources, no inheritance, no IP resources. Partial as C01: signatures, SHA-256 (checked against an independent Lean SHA-256 in the oracle) and the CMS/X.509 envelopes are inputs of the model, tied by the correspondence run.',
-    'note': 'ground truth (what was signed with which key, attribute bytes, digest, prefixes) comes from the harness encoder. The DER-length shape of encode_verify and the EE validation composition are re-read from the source on every run. Roa::process/Aspa::process evaluate at the wall clock; those cases use 2000-2100 validity windows.',
+    'note': 'Relaxed mode (session 10): the relaxed operations sor / roar take their model verdict from the octets through the mode-parametrized decoder at ber = true, half of them re-written with BER liberties outside the signed octets; theorems accepted_object_octets_either_mode, claimsCanon_of_octets_either_mode, parseAttrs_any_mode. ' +
+             'ground truth (what was signed with which key, attribute bytes, digest, prefixes) comes from the harness encoder. The DER-length shape of encode_verify and the EE validation composition are re-read from the source on every run. Roa::process/Aspa::process evaluate at the wall clock; those cases use 2000-2100 validity windows.',
     'shards': {'quick': 4, 'thorough': 16},
     'budget': {'quick': 900, 'thorough': 7200},
     'rule': 'every strict model verdict is computed from the octets of the object (CmsDer.decodeSigObj + CertDer.takeCert); cmsd: the ROA/ASPA/manifest/generic seed objects x about 110 hand-made variations of SignedData, SignerInfo, signed attributes, ContentInfo and the embedded certificate + 30 (thorough 300) mutants each, compared on accept/reject (typed and untyped) and on content type, content, signing time and every certificate field; 1.2k (thorough 8k) objects: generic signed objects with content-type OIDs of 9-250 octets (signed attributes 100-400 octets incl. 127/128/255/256 boundaries), ROAs (prefixes inside/outside/partially outside the EE resources, both families, max-length, EE exact/inherit/trimmed/too small), ASPAs (customer inside/outside, inherit, IP resources present), manifests; one tampering per case out of 22: sid bit, foreign signer, signature bit, signature over [0]-tagged / non-DER-length / content bytes, wrong digest, short digest, content-type mismatch, missing/duplicate/unknown attribute, non-DER attribute order, CMS/SignerInfo version, GeneralizedTime signing time, EE signed by stranger, EE AKI, evaluation time at the window ends, CRL callback refusal, EE with cA, EE without signedObject SIA.',
@@ -253,7 +254,8 @@ PROPS['C10'] = {
     'level': 'proof',
     'technique': 'Lean 4 theorems on a model of SignedMessage::validate_at (inspect, verify with encode_verify proved to be the DER SET OF of all signed attributes, IdCert::validate_ee_at, SignedMessageCrl::validate, verify_not_revoked) and of SignedMessage::create (exact acceptance iff, every single fault rejects, created messages validate iff own key and inside the validity) + differential check of the real code on library-made messages and on messages assembled by an independent RFC 5652 encoder with 0-6 extra signed attributes',
     'claim': 'Lean 4 proofs: validate_at accepts iff protocol content type, exactly one content-type/message-digest/signing-time among the signed attributes (others admitted and kept in the signed bytes), digest attribute = digest of the content, signature by the EE key over 31 <DER length> <all attributes> for every size below 65536, sid = EE SKI = hash of the EE key, EE certificate signed by the peer key, inside its validity, not cA, AKI (if present) = peer key; CRL with matching algorithms signed by the peer key, thisUpdate <= t <= nextUpdate, AKI (if present) = peer key, EE serial not listed. Messages made by create() validate iff the validating key is the issuing key and nb <= t <= na. Partial: RSA, SHA-256 (checked against an independent Lean SHA-256), X.509/CMS envelopes are inputs of the model tied by the correspondence run.',
-    'note': 'ground truth comes from the harness encoder (who signed what, windows, serial lists). The validate_at step list, the IdCert EE checks and the CRL window comparison are re-read from the source on every run.',
+    'note': 'Relaxed mode (session 10): the protocol wrappers decode in relaxed mode; op msgr = SignedMessage::decode(strict = false) + validate_at with the model verdict from the octets (decodeSigMsgM true), half of the messages re-written with BER liberties outside the signed octets; theorem accepted_message_octets_either_mode. ' +
+             'ground truth comes from the harness encoder (who signed what, windows, serial lists). The validate_at step list, the IdCert EE checks and the CRL window comparison are re-read from the source on every run.',
     'shards': {'quick': 4, 'thorough': 16},
     'budget': {'quick': 900, 'thorough': 7200},
     'rule': 'library-made messages (create) validated at nb-1, nb, mid, na, na+1 under the issuing and under another key; 900 (thorough 6000) foreign messages: content 0-200 octets, 0-6 extra signed attributes (unknown OIDs with values of 1-300 octets, binary-signing-time; total attribute size 100-2000 octets incl. the 128/256 boundaries), AKI present/absent on EE and CRL, basicConstraints absent/false/true(+pathLen), key usage, 0-50 revoked serials; one tampering per case out of 25: time at the window ends, EE or CRL signed by a stranger, cA EE, EE/CRL window before/after t, EE serial first/middle/last in the CRL, wrong AKI on EE/CRL, sid bit, foreign signer, signature bit, signature over [0]-tagged or non-DER length bytes, wrong digest, SKI not the key hash, wrong content type, degenerate windows.',
@@ -301,7 +303,7 @@ PROPS['C05'] = {
     'level': 'proof',
     'technique': 'Lean 4 theorems decode(encode x) = x on hand-written octet-level models of the library\'s writers and readers '
                  '(TLV layer; capture layouts; manifest, ROA, ASPA contents; CRL revocation list; times, serials; signed attributes; '
-                 'TbsCert/Cert, TbsCertList/Crl, SignedObject, TbsIdCert/IdCert, SignedMessage with its own CRL type) + correspondence: '
+                 'TbsCert/Cert, TbsCertList/Crl, SignedObject, TbsIdCert/IdCert, SignedMessage with its own CRL type, CSR, RTA) + correspondence: '
                  'every builder -> to_captured -> library decoder -> validator -> re-encoder with an accessor-by-accessor dump of the built '
                  'value and its decoded twin; the reader models are compared with the library on the built octets and the writer models must '
                  'reproduce those octets from the decoded fields',
@@ -315,10 +317,14 @@ PROPS['C05'] = {
              'proof that the skip machine accepts every forest of definite-length values); the same for TbsCertList/Crl '
              '(tbs_crl_roundtrip, crl_roundtrip), SignedObject around a written certificate (sigobj_roundtrip, '
              'sigobj_with_cert_roundtrip), TbsIdCert/IdCert (tbs_idcert_roundtrip, idcert_roundtrip) and SignedMessage around a written '
-             'identity certificate and CRL (msg_crl_roundtrip, msg_crl_serials, sigmsg_roundtrip); re-encoding what was read gives the '
-             'same octets (tbs_cert_reencode). Partial: CSR and RTA envelopes and the validators\' acceptance of built objects are decided '
-             'by the correspondence run (decode, validate, re-encode identity, accessor-by-accessor agreement, no panic at any stage).',
-    'note': 'The writer models (Model/CertEnc, CrlEnc, CmsEnc, IdEnc, SigMsgEnc) are tied to the library by the `bytes` operations: for every '
+             'identity certificate and CRL (msg_crl_roundtrip, msg_crl_serials, sigmsg_roundtrip), the certification request written by '
+             'Csr::construct_rpki_ca (csr_roundtrip) and resource tagged attestations (rta_attestation_roundtrip for the content, '
+             'rta_object_roundtrip for the multi-signed object with any number of certificates, CRLs and signer infos); re-encoding what '
+             'was read gives the same octets (tbs_cert_reencode, cert_reencode, crl_reencode, idcert_reencode, msg_crl_reencode, '
+             'cert_decode_encode_decode). Partial: the validators\' acceptance of built objects and the accessor-by-accessor agreement of '
+             'built and decoded values are decided by the correspondence run (decode, validate, re-encode identity, every accessor on both '
+             'values, no panic at any stage).',
+    'note': 'The writer models (Model/CertEnc, CrlEnc, CmsEnc, IdEnc, SigMsgEnc, CsrEnc, RtaEnc) are tied to the library by the `bytes` operations: for every '
             'object a builder produced, writing the fields the reader model decoded must give the library\'s octets byte for byte (whole '
             'object and to-be-signed part); the reader models are tied by comparing their reading with the library decoder\'s on the same '
             'octets (and on ~17k mutants per run under C04). The builder/decoder capture shapes of ROA and ASPA, the manifest encode_ref '
